@@ -1,5 +1,6 @@
 from __future__ import annotations
 
+import re
 from dataclasses import dataclass
 from random import Random
 from typing import Any
@@ -53,6 +54,14 @@ def _get_position_range(spec: dict[str, Any], component_type: Component) -> Rang
 
 def _get_position_ranges(spec: dict[str, Any]) -> dict[Component, Range]:
     return {component: _get_position_range(spec, component) for component in Component}
+
+
+_structure_classes: dict[str, str] = {"n": "[0-9]", "a": "[A-Z]", "c": "[A-Z0-9]", "e": " "}
+
+
+def _get_component_regex(spec: dict[str, Any], range_: Range) -> str:
+    classes = "".join(c * int(n) for n, c in re.findall(r"(\d+)!?([nace])", spec["bban_spec"]))
+    return "".join(_structure_classes[c] for c in range_.cut(classes))
 
 
 def compute_national_checksum(country_code: str, components: dict[Component, str]) -> str:
@@ -141,6 +150,14 @@ class BBAN(common.Base):
             raise exceptions.InvalidAccountCode(
                 f"Account code exceeds maximum size {account_code_length}"
             )
+
+        for key, error in (
+            (Component.BANK_CODE, exceptions.InvalidBankCode),
+            (Component.BRANCH_CODE, exceptions.InvalidBranchCode),
+            (Component.ACCOUNT_CODE, exceptions.InvalidAccountCode),
+        ):
+            if not re.fullmatch(_get_component_regex(spec, ranges[key]), components[key]):
+                raise error(f"Invalid characters in {key.value} '{components[key]}'")
 
         checksum = compute_national_checksum(country_code, components)
         if checksum:
